@@ -366,6 +366,12 @@ def str_method(eng, s, n, args, kw):
 def bytes_method(eng, s, n, args, kw):
     bs = as_bytes_list(s)
     if n == "join":
+        items = list(eng.iterate(args[0]))
+        if any(type(it).__name__ == "SymBlob" for it in items):
+            from . import blob
+            if bs:
+                raise Unsupported("blob join with separator")
+            return blob.concat(eng, items)
         out = []
         for i, it in enumerate(list(eng.iterate(args[0]))):
             if i:
